@@ -586,6 +586,8 @@ pub fn drive(cfg: &Cfg, meta: &PropMeta, scenarios: Vec<Scenario<'_>>, post: Opt
     // copy of std: "Rust cannot catch foreign exceptions") and aborts this process. The wrapper
     // learns which run that was from this marker file.
     let marker = cfg.out.as_ref().map(|o| PathBuf::from(format!("{}.cur", o.display())));
+    // (one open handle, fixed-width record rewritten in place: no per-run metadata operations)
+    let marker_file = marker.as_ref().and_then(|m| std::fs::OpenOptions::new().create(true).write(true).truncate(true).open(m).ok());
     while r < runs {
         if cfg.max_s > 0.0 && t0.elapsed().as_secs_f64() > cfg.max_s {
             break;
@@ -597,8 +599,9 @@ pub fn drive(cfg: &Cfg, meta: &PropMeta, scenarios: Vec<Scenario<'_>>, post: Opt
         }
         let sc = &scenarios[si];
         let seed = run_seed(cfg.seed, sc.name, r);
-        if let Some(m) = &marker {
-            let _ = std::fs::write(m, format!("{r} {seed} {}", sc.name));
+        if let Some(f) = &marker_file {
+            use std::os::unix::fs::FileExt;
+            let _ = f.write_all_at(format!("{:<95}\n", format!("{r} {seed} {}", sc.name)).as_bytes(), 0);
         }
         let bytes = bytes_for(seed, EFFECTIVE_BYTES);
         let o = run_guarded(sc, &RunIn { run: r, run_seed: seed, bytes: &bytes, verbose: false, deep: false });
